@@ -25,7 +25,7 @@ RULE = ("(1) C11's clean networks built 60..90% class-assortative, with targets 
 ASSUMPTIONS = ["a pairing is unordered: (a,b) and (b,a) are removed together and a created edge is accepted if either orientation has positive weight",
                "clause (2) is about typical behaviour: decided on workloads where the measured effect is > 20x the sampling noise, verdict = plain after < before",
                "violations of C11's clauses seen by the shared monitor are not C12's to report: such a run is counted inconclusive here"]
-HEADLINE = ["hard_rule_runs", "created_edges", "accepted_swaps", "proposals", "numerator_missing_key", "numerator_zero_weight", "forbidden_pairings", "stopped_runs",
+HEADLINE = ["hard_rule_runs", "reused_object_runs", "created_edges", "accepted_swaps", "proposals", "numerator_missing_key", "numerator_zero_weight", "forbidden_pairings", "stopped_runs",
             "approach_runs", "approach_decreased", "approach_sorted_ids_runs", "approach_sorted_ids_not_decreased"]
 REQUIRED = {"quick": {"created_edges": 500, "numerator_missing_key": 20, "numerator_zero_weight": 20, "approach_runs": 3, "forbidden_pairings": 50},
             "thorough": {"created_edges": 20000, "numerator_missing_key": 500, "numerator_zero_weight": 500, "approach_runs": 30, "forbidden_pairings": 1000}}
@@ -51,9 +51,9 @@ def gen_cases(tier, seed):
     return cases
 
 
-def run_hard(case, res):
+def run_hard(case, res, reuse=None, rng=None):
     from gcmpy import ToolsNames as TN
-    rng = random.Random(case["seed"])
+    rng = rng or random.Random(case["seed"])
     fam = rng.choice(list(c11.FAMILIES))
     N = rng.randint(30, 90)
     G, info, classes = c11.make_network(rng, fam, N, ids="shuffled", assort=rng.choice([0.6, 0.8, 0.9]))
@@ -88,7 +88,7 @@ def run_hard(case, res):
     base = {"kind": "hard", "family": fam, "N": N, "classes": classes, "target": kind, "forbidden_pairings": removed,
             "params": {str(k.value): v for k, v in extra.items()}, "seed": case["seed"]}
     quick = not case.get("thorough")
-    mon = c11.run_rewire(res, G, names, T, extra, seed=case["seed"], ctx=base, cap=40000 if quick else 400000, stall=8000 if quick else 60000)
+    mon = c11.run_rewire(res, G, names, T, extra, seed=case["seed"], ctx=base, cap=40000 if quick else 400000, stall=8000 if quick else 60000, reuse=reuse)
     res.count("hard_rule_runs")
     res.count("accepted_swaps", mon.accepted)
     res.count("proposals", mon.props)
@@ -103,7 +103,13 @@ def run_hard(case, res):
             res.violate(clause, ctx=base, **detail)
         else:
             res.inconclusive("monitor aborted on a C11 clause: " + clause)
-    res.nontrivial = removed >= 1 and (mon.reach.get("numerator_missing_key", 0) + mon.reach.get("numerator_zero_weight", 0)) >= 1
+    res.nontrivial = res.nontrivial or (removed >= 1 and (mon.reach.get("numerator_missing_key", 0) + mon.reach.get("numerator_zero_weight", 0)) >= 1)
+    if reuse is None and res.verdict == "held" and rng.random() < 0.3 and getattr(mon, "obj", None) is not None:
+        # history: same rewiring object, another network and another target with other forbidden pairings
+        run_hard(case, res, reuse=mon.obj, rng=rng)
+        return
+    if reuse is not None:
+        return
     res.sample = dict(base, accepted=mon.accepted, proposals=mon.props, asked_for_missing=mon.reach.get("numerator_missing_key", 0),
                       asked_for_zero=mon.reach.get("numerator_zero_weight", 0), created=mon.created, stopped=mon.stopped)
     res.digest = digest(base)
